@@ -28,12 +28,15 @@ line-number changes), 'dev' stays empty.  Oracle = the same `WakeSpec.onceFifo` 
 kind 'tick' are also replayed through the acceptor, cases of kind 'handler' are outside the modelled
 protocol (the model has no handler that fires) and are judged by the spec predicates only.
 
-Timer scenarios: a case with 'timer': 1 registers a real `circuits.Timer` with a very long interval, so that
+Timer scenarios: a case with 'timer': 1 registers a real `circuits.Timer` with a very long interval ('timer': 2 / 3:
+two of them, see TIMER_SETUPS - the second one finds a positive time left and lowers it further or leaves it), so that
 in every idle iteration the loop thread runs `event.reduce_time_left(T)` with T > 0 (handler without `resume`,
 priority above every waiter's) BEFORE the waiter, and the waiter takes its positive-time-out branch
 (`Event.wait(T)` / select / poll / epoll with time-out T).  Time-outs never expire in a run, so a wake-up
 that only the time-out would deliver is reported as `stuck(...)`.  Effects: `hsetWnoResume`, `lAcq`, `tlwOther`,
-`lRel` (accepted by the glue-level timer handler of CV/Drv/Wake.lean), then the model's positive branch.
+`lRel` - transitions of CV.Model.Wake itself (program points tAcq/tChk/tRel; the acceptor is the model alone, the
+theorems of CV/Props/C03.lean cover them), then the model's positive branch.  Histogram `timer_steps`: every effect
+accepted while the model's loop thread is inside the Timer handler, by program point and thread.
 Directed kind 'rtl' (always with the timer): the loop thread is parked before the `point`-th line event of
 that `reduce_time_left(T > 0)` call (`occ`-th idle iteration; helpers it calls included) while the last firer
 fires `k` events, then resumed; the firer fires the rest of its plan.  Park points at which the loop thread
@@ -53,6 +56,11 @@ from framework import Infra
 
 MODES = ('fallback', 'select', 'poll', 'epoll')
 WAITER_FUNCS = {'_on_generate_events', '_generate_events'}
+# case field 'timer': which Timers are registered (intervals in seconds, in registration order; none ever expires).
+# 2 and 3 register two Timers, so that in every idle iteration the second `reduce_time_left(T)` finds a positive
+# time left and either lowers it further (tlwOther from pos) or leaves it (lRel without a write, tl=pos).
+TIMER_SETUPS = {1: (1.0e6,), 2: (1.0e6, 5.0e5), 3: (5.0e5, 1.0e6)}
+TIMER_PCS = ('tAcq', 'tChk', 'tRel')   # CV.Wake.LPc: the loop thread is inside a Timer's generate_events handler
 
 CTL = None   # the run in progress (doubles consult it)
 
@@ -706,7 +714,9 @@ def run_one(px, mode, plan, dev=None, chooser=None, max_steps=6000, scn=None, ti
     c.directed = directed
     CTL = c
     fires_own = directed is not None and directed.kind == 'handler'
-    timer = bool(timer) or (directed is not None and directed.kind == 'rtl')
+    timer = int(timer or 0) or (1 if directed is not None and directed.kind == 'rtl' else 0)
+    if timer not in TIMER_SETUPS and timer:
+        raise Infra(f'unknown timer setup {timer}')
 
     class ev(Event):
         pass
@@ -732,7 +742,8 @@ def run_one(px, mode, plan, dev=None, chooser=None, max_steps=6000, scn=None, ti
 
         class tock(Event):
             """the timer's event (never fired: the interval is ~11 days)"""
-        Timer(1.0e6, tock(), persist=True).register(m)
+        for interval in TIMER_SETUPS[timer]:
+            Timer(interval, tock(), persist=True).register(m)
     if mode == 'select':
         P.Select().register(m)
     elif mode == 'poll':
@@ -895,6 +906,7 @@ def judge(ctx, case, r, ans):
     # --- B: replay-validate the effect stream
     if not ans[0].startswith('ok'):
         raise Infra('driver refused mode op: ' + ans[0])
+    prev = None
     for i, (t, lab, st) in enumerate(r.labels if r.accept else []):
         a = ans[1 + i]
         if not a.startswith('ok '):
@@ -905,6 +917,16 @@ def judge(ctx, case, r, ans):
             break
         ms = parse_state(a[3:])
         is_ = parse_state(st)
+        if prev is not None and prev.get('lpc') in TIMER_PCS:
+            kind = lab.split()[0]
+            if t != 0:
+                kind = 'firer:' + kind
+            elif kind == 'tlwOther':
+                kind += f"(from {prev.get('tl')})"
+            elif kind == 'lRel' and prev.get('lpc') == 'tChk':
+                kind += f"(no write, tl={prev.get('tl')})"
+            ctx.count('timer_steps', f"{prev.get('lpc')}:{kind}")
+        prev = ms
         if mode == 'fallback':
             ms['sig'] = str(min(int(ms['sig']), 1))
         diff = [k for k in ('pend', 'hk', 'tl', 'sig', 'lock') if ms.get(k) != is_.get(k)]
@@ -962,7 +984,7 @@ class Batch:
             if not r.accept:
                 self.ctx.count('judged_by_spec_only', r.mode)
             self.ctx.count('mode', r.mode)
-            self.ctx.count('timer_registered', 'yes' if r.timer else 'no')
+            self.ctx.count('timer_registered', {0: 'no', 1: 'yes'}.get(r.timer, f'yes, setup {r.timer}: {len(TIMER_SETUPS.get(r.timer, ()))} timers'))
             self.ctx.count('plan', '+'.join(map(str, r.plan)))
             self.ctx.count('preemptions', len(r.applied))
             self.ctx.count('effects_per_run', (len(r.labels) // 50) * 50)
@@ -1062,8 +1084,8 @@ def children(r, after=-1):
 
 
 def explore(ctx, px, batch, mode, plan, level2, level3, deadline_hit, timer=False):
-    tm = {'timer': 1} if timer else {}
-    tag = f"{mode}{'+timer' if timer else ''}/{'+'.join(map(str, plan))}"
+    tm = {'timer': int(timer)} if timer else {}
+    tag = f"{mode}{('+timer' + (str(int(timer)) if int(timer) > 1 else '')) if timer else ''}/{'+'.join(map(str, plan))}"
     base_case = {'mode': mode, 'plan': plan, 'dev': [], **tm}
     r0 = do_case(px, base_case)
     batch.add(base_case, r0, nontrivial=False)
@@ -1127,9 +1149,9 @@ def random_runs(ctx, px, batch, n, modes, deadline_hit):
             if len(enabled) > 1 and rng.random() < p:
                 return rng.choice(enabled)
             return default
-        timer = rng.random() < 0.3
+        timer = rng.choice((1, 1, 2, 3)) if rng.random() < 0.3 else 0
         r = run_one(px, mode, plan, chooser=chooser, timer=timer)
-        case = {'mode': mode, 'plan': plan, 'dev': r.applied, **({'timer': 1} if timer else {})}
+        case = {'mode': mode, 'plan': plan, 'dev': r.applied, **({'timer': timer} if timer else {})}
         batch.add(case, r)
 
 
@@ -1168,8 +1190,9 @@ def run(ctx):
         'all events have priority 0; no tasks; the only timer is one circuits.Timer with a very long interval '
         '(cases with timer=1 and the directed kind rtl): the loop thread lowers time_left to a positive value '
         'before the waiter, which exercises the model\'s positive-time-out branch (waitPos / pSel with a positive '
-        'time-out); the Timer handler itself (hsetWnoResume, lAcq, tlwOther, lRel) is accepted by a glue-level '
-        'extension in CV/Drv/Wake.lean, not by CV.Model.Wake, and is therefore outside the theorems',
+        'time-out); the Timer handler itself (hsetWnoResume, lAcq, tlwOther, lRel) is part of CV.Model.Wake '
+        '(program points tAcq/tChk/tRel) and of the theorems; a Timer that has expired (reduce_time_left(0) after '
+        'firing its event from the loop thread) is not exercised',
         'time-outs of the idle wait never expire during a run (that is the property); the run is ended by the '
         'harness once every thread is blocked or finished',
     ]
@@ -1197,12 +1220,17 @@ def run(ctx):
             explore(ctx, px, batch, 'fallback', [1, 1], 150, 30, deadline_hit)
             for mode in MODES:
                 explore(ctx, px, batch, mode, [1], 40, 0, deadline_hit, timer=True)
+            for mode, setup in (('fallback', 2), ('select', 3), ('poll', 2), ('epoll', 3)):
+                explore(ctx, px, batch, mode, [1], 10, 0, deadline_hit, timer=setup)
             random_runs(ctx, px, batch, 250, MODES, deadline_hit)
         else:
             for mode in MODES:
                 explore(ctx, px, batch, mode, [1], None, 600, deadline_hit)
             for mode in MODES:
                 explore(ctx, px, batch, mode, [1], 1500, 200, deadline_hit, timer=True)
+            for mode in MODES:
+                explore(ctx, px, batch, mode, [1], 400, 50, deadline_hit, timer=2)
+                explore(ctx, px, batch, mode, [1], 400, 50, deadline_hit, timer=3)
             random_runs(ctx, px, batch, 4000, MODES, deadline_hit)
             for mode in MODES:
                 explore(ctx, px, batch, mode, [1, 1], 1000, 300, deadline_hit)
